@@ -141,6 +141,12 @@ func (r *subRegistry) DeleteTag(ctx context.Context, repo string, name string) e
 func (r *subRegistry) Repositories(ctx context.Context, startAfter string) ociregistry.Seq[string] {
 	ctx = r.mapScopes(ctx)
 	p := r.prefix + "/"
+	if startAfter != "" {
+		// The start point is a name inside the sub-registry,
+		// so it needs the prefix to mean the same thing to
+		// the underlying registry.
+		startAfter = p + startAfter
+	}
 	return func(yield func(string, error) bool) {
 		// TODO(go1.23): for name, err := range r.r.Repositories(ctx)
 		r.r.Repositories(ctx, startAfter)(func(repo string, err error) bool {
